@@ -1175,6 +1175,14 @@ def expand_imports(text):
 def build(template_text: str, repo: str, unit: str) -> Built:
     template_text = expand_imports(expand_includes(template_text))
     parts = parse_template(template_text)
+    mb = re.search(r"^//! broadcast_use:\s*(.+)$", template_text, re.M)
+    if mb:
+        # unit-wide `broadcast use` (e.g. the drop-resolution axioms of the container doubles): appended to the entry
+        # hints of every extracted function, after any hint that must come first (`hide(..)`)
+        names = ", ".join(mb.group(1).split())
+        for part in parts:
+            if part[0] != "text" and "fn" in part[1].args and part[1].args.get("mode") != "stub":
+                part[1].entry.append(["entry", "", 1, f"broadcast use {{{names}}};"])
     out_lines: list[str] = []
     linemap = {}
     fn_ranges = []
